@@ -13,7 +13,17 @@ TRUSTED = ["hand-written Lean models tied to the code by the correspondence run"
 ASSUMPTIONS = []
 nontrivial = _auto.default_nontrivial
 # ops that only exist for the 64-bit backend (hooks on 56-bit-limb internals) are skipped for force32
-ONLY64 = ("scalar.add ", "scalar.mul ", "scalar64.", "fe64.")
+ONLY64 = ("scalar.add ", "scalar.mul ", "scalar64.", "fe64.", "ktie.")
+L = 2 ** 252 + 27742317777372353535851937790883648493
+
+
+def in_domain(line):
+    """crate-private `muladd` (reached through a hook) is only ever called with a reduced addend; outside that domain the
+    two backends legitimately differ (one conditional subtraction vs full reduction) and nothing public can observe it"""
+    if line.startswith("scalar.muladd "):
+        c = line.split(" ")[3]
+        return int.from_bytes(bytes.fromhex(c), "little") < L
+    return True
 
 
 def gen(tier, rng):
@@ -21,5 +31,5 @@ def gen(tier, rng):
     for prop, k in (("C12", 2), ("C13", 2), ("C14", 2), ("C15", 3)):
         kk = k if tier == "quick" else 1
         for i, (line, kind) in enumerate(_auto.make_gen(prop, also=False)(tier, rng)):
-            if i % kk == 0 and not line.startswith(ONLY64):
+            if i % kk == 0 and not line.startswith(ONLY64) and in_domain(line):
                 yield (line, f"{prop}/{kind}")
